@@ -132,22 +132,10 @@ Proof.
   split; [rewrite nslots_set; exact I|exact F].
 Qed.
 
-Lemma op_drop_clear_status s i j : sst (get (op_drop_clear s i) j) = sst (get s j).
-Proof.
-  unfold op_drop_clear. destruct (Nat.ltb_spec i (nslots s)) as [H|H].
-  - destruct (Nat.eq_dec j i) as [->|N]; [rewrite get_set_eq by exact H|rewrite get_set_ne by exact N]; reflexivity.
-  - rewrite set_oob by exact H. reflexivity.
-Qed.
 
-Lemma op_drop_clear_wfp s i : wf_pstate s -> wf_pstate (op_drop_clear s i).
-Proof.
-  intros W. unfold op_drop_clear. destruct (Nat.ltb_spec i (nslots s)) as [H|H].
-  - apply wfp_set; auto. cbn. apply W. exact H.
-  - rewrite set_oob by exact H. exact W.
-Qed.
 
 Lemma op_drop_clear_wf s i : Wf s -> Wf (op_drop_clear s i).
-Proof. intros [I F]. unfold op_drop_clear. split; [rewrite nslots_set; exact I|exact F]. Qed.
+Proof. apply wf_clear. Qed.
 
 Lemma status_other s i st j : j <> i -> sst (get (set_st s i st) j) = sst (get s j).
 Proof.
@@ -192,15 +180,15 @@ Proof.
   assert (St0 : forall k, sst (get s0 k) = sst (get s k)).
   { intros k. subst s0. destruct (Nat.eq_dec k i) as [->|N];
       [rewrite get_set_eq by exact Hi|rewrite get_set_ne by exact N]; reflexivity. }
-  assert (C : cas (set_st s0 i SSendable) i SCreated SNone = None).
-  { unfold cas. rewrite sst_set_st by (rewrite N0; exact Hi). rewrite Nat.eqb_refl. reflexivity. }
+  assert (C : op_drop_created (set_st s0 i SSendable) i = set_st s0 i SSendable).
+  { apply op_drop_created_noop. rewrite sst_set_st by (rewrite N0; exact Hi). rewrite Nat.eqb_refl. discriminate. }
   rewrite C. rewrite sst_set_st by (rewrite N0; exact Hi). destruct (Nat.eqb j i); auto.
 Qed.
 
 Lemma op_mark_nslots s i : nslots (op_mark s i) = nslots s.
 Proof.
-  unfold op_mark. destruct (cas _ _ _ _) as [s2|] eqn:C;
-    [apply cas_some in C as [_ ->]; rewrite nslots_set_st|]; rewrite nslots_set_st, nslots_set; reflexivity.
+  unfold op_mark, op_drop_created. destruct (_ =? SCreated);
+    [rewrite nslots_set_st, op_drop_clear_nslots|]; rewrite nslots_set_st, nslots_set; reflexivity.
 Qed.
 
 Lemma op_mark_wfp s i : wf_pstate s -> wf_pstate (op_mark s i).
@@ -210,16 +198,14 @@ Proof.
                                      shdr := ecat_header (fused (sfr (get s i))) |})).
   { destruct (Nat.ltb_spec i (nslots s)) as [Hi|Hi]; [apply wfp_set; auto; cbn; apply Wp; exact Hi|].
     rewrite set_oob by exact Hi. exact Wp. }
-  destruct (cas _ _ _ _) as [s2|] eqn:C; [apply cas_some in C as [_ ->]; apply wfp_set_st|]; apply wfp_set_st; exact W0.
+  unfold op_drop_created. destruct (_ =? SCreated); [apply wfp_set_st, op_drop_clear_wfp|]; apply wfp_set_st; exact W0.
 Qed.
 
 Lemma wf_nslots_fidx s s' : Wf s -> nslots s' = nslots s -> fidx s' = fidx s -> Wf s'.
 Proof. intros [I F] N E. split; [rewrite N; exact I|rewrite E; exact F]. Qed.
 
 Lemma op_mark_fidx s i : fidx (op_mark s i) = fidx s.
-Proof.
-  unfold op_mark. destruct (cas _ _ _ _) as [s2|] eqn:C; [apply cas_some in C as [_ ->]|]; reflexivity.
-Qed.
+Proof. unfold op_mark, op_drop_created. destruct (_ =? SCreated); reflexivity. Qed.
 
 (* what the old state says about slot i when a given party is known to hold it *)
 Lemma ok_created x i : Inv2 x -> hget (xh x) i = HCreated ->
@@ -248,6 +234,17 @@ Proof.
   destruct (hget (xh x) i); intuition (subst; try congruence).
 Qed.
 
+Lemma status_other_c s i st j : j <> i -> sst (get (set_st (op_drop_clear s i) i st) j) = sst (get s j).
+Proof. intros N. rewrite status_other by exact N. apply op_drop_clear_status. Qed.
+Lemma status_self_c s i st : (i < nslots s)%nat -> sst (get (set_st (op_drop_clear s i) i st) i) = st.
+Proof. intros H. apply status_self. rewrite op_drop_clear_nslots. exact H. Qed.
+Lemma nslots_c s i st : nslots (set_st (op_drop_clear s i) i st) = nslots s.
+Proof. rewrite nslots_set_st. apply op_drop_clear_nslots. Qed.
+Lemma wf_c s i st : Wf s -> Wf (set_st (op_drop_clear s i) i st).
+Proof. intros W. apply wf_set_st, wf_clear. exact W. Qed.
+Lemma wfp_c s i st : wf_pstate s -> wf_pstate (set_st (op_drop_clear s i) i st).
+Proof. intros W. apply wfp_set_st, op_drop_clear_wfp. exact W. Qed.
+
 (* ---------- every step preserves the invariant ---------- *)
 
 Ltac others_same :=
@@ -256,7 +253,8 @@ Ltac others_same :=
   repeat split; auto;
   try (rewrite hget_upd_ne by exact Nj; reflexivity);
   try (rewrite nth_upd_ne by exact Nj; reflexivity);
-  try (rewrite status_other by exact Nj; reflexivity).
+  try (rewrite status_other by exact Nj; reflexivity);
+  try (rewrite status_other_c by exact Nj; reflexivity).
 
 Lemma xstep_inv x o x' : Inv2 x -> xstep x o = Some x' -> Inv2 x'.
 Proof.
@@ -315,19 +313,19 @@ Proof.
     destruct (hk_eqb (hget (xh x) i) HCreated) eqn:E; [|discriminate]. apply hk_eqb_eq in E.
     inversion H; subst x'; clear H.
     destruct (ok_created x i I E) as (Hi & Hs & Ht & Hr).
-    assert (Eo : op_drop_created (xs x) i = set_st (xs x) i SNone).
-    { unfold op_drop_created, cas. rewrite Hs. reflexivity. }
+    assert (Eo : op_drop_created (xs x) i = set_st (op_drop_clear (xs x) i) i SNone).
+    { apply op_drop_created_yes. exact Hs. }
     eapply inv2_update with (i := i) (st' := SNone) (h' := HNone) (tx' := false) (rx' := false); eauto;
       cbn [xs xh xtx xrx]; rewrite ?Eo.
-    + apply nslots_set_st.
+    + apply nslots_c.
     + apply upd_length.
     + others_same.
-    + apply status_self; exact Hi.
+    + apply status_self_c; exact Hi.
     + apply hget_upd_eq. lia.
     + cbn. auto.
     + apply (i2_rx x I).
-    + apply wf_set_st; exact W.
-    + apply wfp_set_st; exact Wp.
+    + apply wf_c; exact W.
+    + apply wfp_c; exact Wp.
   - (* tx claim *)
     unfold op_tx_claim in H. destruct (tx_scan (xs x) 0 (nslots (xs x))) as [s' r] eqn:E.
     inversion H; subst x'; clear H. apply tx_scan_spec in E. destruct r as [k|].
@@ -377,15 +375,15 @@ Proof.
     apply negb_true_iff in G. unfold in_window in G. apply orb_false_iff in G as [Gt Gr].
     eapply inv2_update with (i := i) (st' := SNone) (h' := HNone) (tx' := false) (rx' := false); eauto;
       cbn [xs xh xtx xrx]; unfold op_drop_fut.
-    + apply nslots_set_st.
+    + apply nslots_c.
     + apply upd_length.
     + others_same.
-    + apply status_self; exact Hi.
+    + apply status_self_c; exact Hi.
     + apply hget_upd_eq. lia.
     + cbn. auto.
     + apply (i2_rx x I).
-    + apply wf_set_st; exact W.
-    + apply wfp_set_st; exact Wp.
+    + apply wf_c; exact W.
+    + apply wfp_c; exact Wp.
   - (* rx begin *)
     destruct (xrx x) as [k0|] eqn:Erx; [inversion H|].
     destruct (op_rx_begin (xs x) bytes) as [s' r] eqn:E. inversion H; subst x'; clear H.
@@ -484,15 +482,15 @@ Proof.
       destruct retries as [|r]; inversion H; subst x'; clear H.
       * eapply inv2_update with (i := i) (st' := SNone) (h' := HNone) (tx' := false) (rx' := false); eauto;
           cbn [xs xh xtx xrx].
-        -- apply nslots_set_st.
+        -- apply nslots_c.
         -- apply upd_length.
         -- others_same.
-        -- apply status_self; exact Hi.
+        -- apply status_self_c; exact Hi.
         -- apply hget_upd_eq. lia.
         -- cbn. auto.
         -- apply (i2_rx x I).
-        -- apply wf_set_st; exact W.
-        -- apply wfp_set_st; exact Wp.
+        -- apply wf_c; exact W.
+        -- apply wfp_c; exact Wp.
       * eapply inv2_update with (i := i) (st' := SSendable) (h' := HFut) (tx' := false) (rx' := false); eauto;
           cbn [xs xh xtx xrx].
         -- apply nslots_set_st.
@@ -597,6 +595,14 @@ Proof.
   - rewrite Ha, status_self by exact Hi. exact E.
 Qed.
 
+Lemma edges_set_st_c s i a b : (i < nslots s)%nat -> sst (get s i) = a -> edge a b = true ->
+  forall j, edge (sst (get s j)) (sst (get (set_st (op_drop_clear s i) i b) j)) = true.
+Proof.
+  intros Hi Ha E. apply edges_one with (i := i).
+  - intros j Nj. apply status_other_c. exact Nj.
+  - rewrite Ha, status_self_c by exact Hi. exact E.
+Qed.
+
 (* every change of a slot's status made by any step is an edge of the documented order *)
 Theorem xstep_edge x o x' : Inv2 x -> xstep x o = Some x' ->
   forall j, edge (sst (get (xs x) j)) (sst (get (xs x') j)) = true.
@@ -618,9 +624,8 @@ Proof.
     + rewrite op_mark_status by assumption. rewrite Nat.eqb_refl, Hs. reflexivity.
   - destruct (hk_eqb _ _) eqn:E; [|discriminate]. apply hk_eqb_eq in E. inversion H; subst x'. cbn [xs].
     destruct (ok_created x i I E) as (Hi & Hs & _).
-    replace (op_drop_created (xs x) i) with (set_st (xs x) i SNone)
-      by (unfold op_drop_created, cas; rewrite Hs; reflexivity).
-    eapply edges_set_st; eauto.
+    rewrite op_drop_created_yes by exact Hs.
+    eapply edges_set_st_c; eauto.
   - unfold op_tx_claim in H. destruct (tx_scan (xs x) 0 (nslots (xs x))) as [s' r] eqn:E.
     inversion H; subst x'; clear H. cbn [xs]. apply tx_scan_spec in E. destruct r as [k|].
     + destruct E as [E1 ->].
@@ -640,7 +645,7 @@ Proof.
     pose proof (i2_ok x I i Hi) as Ok. rewrite E, Gt, Gr in Ok. unfold slot_ok in Ok.
     unfold op_drop_fut.
     destruct Ok as [(A & _) | [(_ & A & _) | (_ & _ & [S1 | [S1 | S1]])]]; try discriminate;
-      eapply edges_set_st; eauto.
+      eapply edges_set_st_c; eauto.
   - destruct (xrx x) as [k0|] eqn:Erx; [inversion H|].
     destruct (op_rx_begin (xs x) bytes) as [s' r] eqn:E. inversion H; subst x'; clear H. cbn [xs].
     pose proof (op_rx_begin_spec _ _ _ _ Wp E) as Sp. destruct r as [r0|[k i]].
@@ -673,6 +678,6 @@ Proof.
       pose proof (i2_ok x I i Hi) as Ok. rewrite E, Gt, Gr in Ok. unfold slot_ok in Ok.
       destruct retries as [|r]; inversion H; subst x'; clear H; cbn [xs];
         destruct Ok as [(A & _) | [(_ & A & _) | (_ & _ & [S1 | [S1 | S1]])]]; try discriminate;
-        eapply edges_set_st; eauto.
+        first [eapply edges_set_st_c; eauto | eapply edges_set_st; eauto].
     + inversion H; subst x'. cbn [xs]. apply edges_same. reflexivity.
 Qed.
